@@ -110,6 +110,11 @@ type MemConn struct {
 	// FaultAt is the index of the operation at which a fault was injected (-1: none).
 	FaultAt       int
 	inWrite       bool
+	// wdeadline / rdeadline: a deadline was set (non-zero time) for writes /
+	// reads of this end. Time is logical: a pending deadline may expire
+	// whenever the operation it guards cannot complete at once - an explored
+	// environment choice (default: it does not expire first).
+	wdeadline, rdeadline bool
 	str           string // String() override (ServerString)
 	local, remote addr
 }
@@ -293,6 +298,27 @@ func (c *MemConn) Write(p []byte) (int, error) {
 		c.wbroken = errors.New("vnet: injected write error (peer stopped reading)")
 		return 0, c.wbroken
 	}
+	if c.wdeadline && c.Cap > 0 && len(c.wr.data)+len(p) > c.Cap && !c.closed && !c.wr.rclosed && c.wbroken == nil && vrt.Exploring() {
+		// the peer does not take the data fast enough and a write deadline is
+		// pending: it may expire with the buffer partly transferred (as a
+		// socket write does), the connection stays usable
+		if vrt.Choose(2, "write-deadline-expires") == 1 {
+			room := c.Cap - len(c.wr.data)
+			if room < 0 {
+				room = 0
+			}
+			if room >= len(p) {
+				room = len(p) - 1
+			}
+			c.wr.data = append(c.wr.data, p[:room]...)
+			if c.Tap != nil && room > 0 {
+				c.Tap(append([]byte(nil), p[:room]...))
+			}
+			c.OpLog = append(c.OpLog, OpRec{"write", room, true})
+			vrt.Flag("io:write-deadline-expired-mid-buffer")
+			return room, TimeoutError{}
+		}
+	}
 	vrt.Block(vrt.KIO, "write "+c.name, c, func() bool {
 		return c.Cap == 0 || len(c.wr.data) < c.Cap || c.closed || c.wr.rclosed || c.wbroken != nil
 	})
@@ -355,9 +381,12 @@ func (c *MemConn) Close() error {
 
 func (c *MemConn) LocalAddr() Addr                    { return c.local }
 func (c *MemConn) RemoteAddr() Addr                   { return c.remote }
-func (c *MemConn) SetDeadline(t time.Time) error      { return nil }
-func (c *MemConn) SetReadDeadline(t time.Time) error  { return nil }
-func (c *MemConn) SetWriteDeadline(t time.Time) error { return nil }
+func (c *MemConn) SetDeadline(t time.Time) error {
+	c.wdeadline, c.rdeadline = !t.IsZero(), !t.IsZero()
+	return nil
+}
+func (c *MemConn) SetReadDeadline(t time.Time) error  { c.rdeadline = !t.IsZero(); return nil }
+func (c *MemConn) SetWriteDeadline(t time.Time) error { c.wdeadline = !t.IsZero(); return nil }
 func (c *MemConn) String() string {
 	if c.str != "" {
 		return c.str
